@@ -5,15 +5,14 @@ sys.path.insert(0, '/verif')
 from contracts.props import PROPS
 
 NA = {
- 'C04': "agreement between Harper's offsets and node ranges of tree-sitter (C), pulldown-cmark and typst-syntax: external parsers cannot be given checked contracts; the Harper-side glue is str-byte/split/closure code outside Verus and too string-heavy for CBMC",
  'C05': "whole-history hyper-property over an external LruCache keyed by a 64-bit hash plus thread assignment; no function contract expresses it (false under hash collisions; Kani has no threads)",
  'C07': "async tokio file I/O, restarts and crash points: neither Verus nor Kani has file-system or crash semantics",
  'C09': "schedules of concurrently polled async handlers behind tower-lsp; Kani has no concurrency, Verus would need a rewritten model",
  'C10': "absence of a side effect across the whole resolved dependency closure; not a function contract",
 }
 TEXT = {
- 'C01': ("proof", "Panic-freedom and termination are PROVED (Verus, unbounded) for the engine every rule and the plain-English front-end run on: all Span methods, 7 sub-lexers + dispatcher + tiling loop, the URL scanner, the Pattern trait contract (matches <= len) for 13 impls, run_on_chunk, find_all_matches, Wagner-Fischer rows, four condensing passes, Mask::push_allowed. Whitespace lexers and the JSDoc inline-tag scanner are checked by bounded Kani harnesses; Document::parse, Markdown, Typst, Literate Haskell and the comment front-ends by bounded runtime contract checks (all labelled bounded, not counted as proved). Rule bodies and external-parser front-ends are otherwise unverified.", "§3 C01"),
- 'C02': ("proof", "PlainEnglish::parse (real body) is PROVED to return tokens that tile the text exactly (in bounds, ordered, disjoint, gap-free, non-empty) for all inputs, given the sub-lexer contracts (7 proved, 7 assumed of which 6 are Kani-bounded); lexical shape proved for decades, quotes, punctuation, regexish, catch-all; number-suffix letters proved for slices of every length; condense_spaces / condense_newlines / condense_dotted_initialisms / condense_number_suffixes are PROVED to preserve the tiling; Space/Newline shape bounded (Kani); the remaining passes, quote twins and Markdown token order bounded (runtime contract checks). Other front-ends unverified.", "§3 C02"),
+ 'C01': ("proof", "Panic-freedom and termination are PROVED (Verus, unbounded) for the engine every rule and the plain-English front-end run on: all Span methods, 7 sub-lexers + dispatcher + tiling loop, the URL scanner, the Pattern trait contract (matches <= len) for 13 impls, run_on_chunk, find_all_matches, Wagner-Fischer rows, four condensing passes, Mask::push_allowed / merge_whitespace_sep, and parsers::Mask<M,P>::parse (the composition behind every masked front-end). Whitespace lexers and the JSDoc inline-tag scanner are checked by bounded Kani harnesses; Document::parse, Markdown, Typst, Literate Haskell and the comment front-ends by bounded runtime contract checks (all labelled bounded, not counted as proved). Rule bodies and external-parser front-ends are otherwise unverified.", "§3 C01"),
+ 'C02': ("proof", "PlainEnglish::parse (real body) is PROVED to return tokens that tile the text exactly (in bounds, ordered, disjoint, gap-free, non-empty) for all inputs, given the sub-lexer contracts (7 proved, 7 assumed of which 6 are Kani-bounded); lexical shape proved for decades, quotes, punctuation, regexish, catch-all; number-suffix letters proved for slices of every length; condense_spaces / condense_newlines / condense_dotted_initialisms / condense_number_suffixes are PROVED to preserve the tiling; parsers::Mask<M,P>::parse is PROVED to return in-bounds, ordered, non-overlapping tokens for the whole file given the Masker and inner-Parser trait contracts; Space/Newline shape bounded (Kani); the remaining passes, quote twins and Markdown token order bounded (runtime contract checks). Other front-ends unverified.", "§3 C02"),
  'C03': ("proof", "Suggestion::apply (the real body, extracted mechanically) is PROVED equal to the mathematical splice for all (text, span, suggestion) with span inside the text; locality lemmas restate the property over that spec; run_on_chunk is proved to hand every rule a non-empty in-bounds sub-slice. LintGroup::lint (chunk cache) is checked by a bounded runtime contract check only. That every rule's span is inside the text is NOT proved.", "§3 C03"),
  'C08': ("model_checking", "BOUNDED model checking only (Kani/CBMC): index_to_position equals an independent reference and the position/span round trips hold for every text of length <= 3 (quick) / <= 5 (thorough) over a 6-symbol alphabet covering LF, CR, TAB, 1- and 2-unit UTF-16 characters and a combining mark. Diagnostics, code-action lookup and TextEdit construction are checked by a bounded runtime contract check on 19 texts. The final-line defect D4 is a known finding. Not a proof.", "§3 C08"),
  'C13': ("proof", "remove_overlaps (real body, R1-desugared) is PROVED for all inputs with well-formed spans: result is a sub-list of a permutation of the input, pairwise non-overlapping, every dropped lint starts inside a kept one, non-empty input gives non-empty output. Modulo the std sort specification and the remove_indices contract, whose body is checked by exhaustive bounded execution only.", "§3 C13"),
@@ -21,6 +20,7 @@ TEXT = {
  'C17': ("proof", "NumberSuffix::correct_suffix_for is PROVED (Kani, loop-free, full domain) to equal the English ordinal rule for every integer 0 <= n < 2^53; from_chars/to_chars PROVED for slices of every length (Verus) and all char pairs (Kani); the lint span arithmetic (last two characters) PROVED; the token-merging pass PROVED to keep the tokens tiling. The rule end to end (lexing, merging, lint span, suggestion, re-check) is checked by a bounded runtime contract check on 221 integers at 8 positions.", "§3 C17"),
 }
 TEXT.update({
+ 'C04': ("exploration", "The composition step every masked front-end runs through, parsers::Mask<M,P>::parse, is PROVED (Verus) to shift chunk tokens to their place in the file, keep them in order and emit nothing but structural breaks outside the spans the masker allowed, given the Masker / inner-Parser trait contracts; Mask::push_allowed and merge_whitespace_sep are proved to keep masks well formed. The front-ends themselves wrap external parsers: they are covered by a BOUNDED runtime check only - files assembled from segments with known prose words (7 languages + Markdown, multi-byte text in code and comments, CR LF, indentation, ignore markers, inline code): the Word tokens are exactly the declared words at their declared offsets.", "§3 C04"),
  'C06': ("exploration", "BOUNDED runtime check of the contract of SpellCheck::lint against Dictionary::words_iter (data-dependent; nothing proved): every (quick: every 4th) curated entry the lexer reads as one word, in its listed, capitalised and upper-case form, alone and inside a sentence, American and British dialect, is not reported; mutated non-words are reported exactly once with the exact span and every suggestion is a dictionary word of the dialect.", "§3 C06"),
  'C12': ("exploration", "BOUNDED runtime check of the relational contract lint(P ++ D) == lint(P) ++ shift(lint(D), |P|) (whole pipeline; nothing proved) on 110 x 63 pairs of harvested rule-test sentences, P quote-free and terminated, all curated rules on.", "§3 C12"),
  'C16': ("exploration", "BOUNDED runtime check of the invariant and operation contracts of harper_wasm::Linter, run natively (nothing proved): spans in bounds and disjoint, problem text exact, JSON round trips, apply_suggestion == splice, ignore/export/clear/import, custom words, configuration overlay undone, to_title_case - on scripted call sequences over 30 texts x 2 languages.", "§3 C16"),
@@ -37,6 +37,7 @@ NOTE = {
  'C13': "trusted: sort_by_key spec, tuple Ord axiom, size_of usize == 8, R1 + closure annotation; remove_indices body bounded-rac only",
  'C15': "trusted: Vec::extend/RangeInclusive iterator model; precondition len <= 254",
  'C17': "trusted: CBMC float model, 64-bit target; lex_number (std parse) unverified",
+ 'C04': "proved: Mask::parse composition + mask operations (modulo trait contracts, stub iterator); bounded: 7 languages + Markdown, <= 3 of <= 14 segments",
  'C06': "bounded: single-token curated entries, 2 dialects, one carrier sentence; quick = every 4th entry; no proof",
  'C12': "bounded: 110 first paragraphs x 63 continuations from the harvested rule-test sentences; plain English; no proof",
  'C16': "bounded: scripted call sequences over 30 texts x 2 languages, American dialect; no proof",
